@@ -7,6 +7,7 @@ import (
 	"os"
 	"sort"
 	"strings"
+	"time"
 
 	"golang.org/x/tools/go/ssa"
 )
@@ -39,7 +40,7 @@ func init() {
 		Explanation: "Decided (structural necessary conditions, package pkg/blobserver/encrypt): " +
 			"X-taint — explicit information flow, package-wide and flow-insensitive: no value derived from the plaintext handed in through the storage API (the ReceiveBlob reader, plaintext blobrefs of ReceiveBlob/Fetch/StatBlobs/RemoveBlobs/EnumerateBlobs), from keys of the meta index (plaintext refs) or from the output of age.Decrypt reaches any argument of any call that is given one of the wrapped stores (a method call on storage.blobs/storage.meta or a helper such as blobserver.ReceiveNoHash/EnumerateAll taking one); the only declassifier is the writer returned by age.Encrypt; every reader/byte-slice handed to a wrapped store, and the blobref it is stored under, derive from a buffer age.Encrypt wrote into, and that blobref is computed (blob.RefFromBytes) from the very buffer that is uploaded; the value half of every meta-index row (size/encrypted-ref, later used as the name fetched from the wrapped store) does not derive from API plaintext; every age.Encrypt/age.Decrypt call is keyed from the one identity field of the storage struct. " +
 			"X-fetch — every success return of Fetch is dominated by HashMatches()==true of the fetched blob's ref against a hash fed (before the comparison) from the reader the wrapped store returned, and by a successful decryptBlob of a buffer fed by that same copy; the returned reader is the decrypt output and the returned size is the indexed plaintext size for the requested ref; decryptBlob returns nil only after the version byte compared equal to the constant encryptBlob writes, age.Decrypt succeeded and the copy of its output succeeded; encryptBlob returns nil only after the copy into the age writer and its Close succeeded. " +
-			"X-compact — in makePackedMetaBlob the removal of the small meta blobs is dominated by the success edge of the upload of the packed meta blob to the same store, which is dominated by a successful encryptBlob of a buffer that every element of plains was written to, and is unreachable from a failed index look-up; the restart path exists: the constructor returns a store only after readAllMetaBlobs succeeded, which enumerates the meta store, fetches every enumerated ref from it, hands the bytes to processEncryptedMetaBlob and fails if that fails; processEncryptedMetaBlob succeeds only after a successful decryptBlob and writes an index row computed from the decrypted lines, failing if the index write fails; the header line written by both meta writers equals the one the parser accepts. " +
+			"X-compact — in makePackedMetaBlob the removal of the small meta blobs is dominated by the success edge of the upload of the packed meta blob to the same store, which is dominated by a successful encryptBlob into the uploaded buffer, and is unreachable from the failure edge of an index look-up; the restart path exists: the constructor returns a store only after readAllMetaBlobs succeeded, which enumerates the meta store, fetches every enumerated ref from it, hands the bytes to processEncryptedMetaBlob and fails if that fails; processEncryptedMetaBlob succeeds only after a successful decryptBlob and writes an index row computed from the decrypted lines, failing if the index write fails; the header line written by both meta writers equals the one the parser accepts. " +
 			"NOT decided: implicit flows (control dependence, timing, sizes: integer, float and boolean values other than bytes are treated as carrying no plaintext), confidentiality/authenticity of age itself, what external helpers do with their arguments beyond 'results and mutable arguments depend on all arguments', which field of a decrypted meta line ends up as the encrypted ref (the index is trusted to return what was stored), that tampering is detected for any concrete byte flip, that the compacted meta blobs cover exactly the deleted ones for a concrete history, recoverability outcomes.",
 		RuleDocs: map[string]string{
 			"X-taint":   "information-flow graph over package encrypt: every data argument of every call that receives storage.blobs/storage.meta (sinks), every value written to the meta index, every age.Encrypt/Decrypt key: no flow from API plaintext / index keys / decrypt output; uploaded bytes and their refs derive from an age.Encrypt target buffer, the ref from the uploaded buffer",
@@ -54,6 +55,10 @@ func init() {
 }
 
 func runC11(p *Program, r *Reporter) {
+	t0 := time.Now()
+	defer func() {
+		r.Note("C11 rules (graph construction + all queries) took %d ms after loading", time.Since(t0).Milliseconds())
+	}()
 	g := c11BuildFlow(p)
 	r.Analysed("functions", len(g.fns))
 	r.Analysed("flow_nodes", len(g.succ))
@@ -994,21 +999,7 @@ func c11ParamName(c CallSite, i int) string {
 // applied to bytes that come from one of the buffer objects the uploaded
 // content argument is made of.
 func c11RefOfSameBuffer(ref, content ssa.Value) (bool, string) {
-	// buffer objects behind the uploaded reader/bytes: calls and allocs in its backward slice
-	roots := map[ssa.Value]bool{}
-	DependsOn(content, func(v ssa.Value) bool {
-		switch v.(type) {
-		case *ssa.Call, *ssa.Alloc, *ssa.MakeSlice:
-			if c11Objecty(v.Type()) {
-				roots[v] = true
-			}
-		case *ssa.Extract:
-			if c11Objecty(v.Type()) {
-				roots[v] = true
-			}
-		}
-		return false
-	})
+	roots := c11BufferRoots(content)
 	if len(roots) == 0 {
 		return false, "the uploaded content has no identifiable buffer"
 	}
@@ -1023,7 +1014,12 @@ func c11RefOfSameBuffer(ref, content ssa.Value) (bool, string) {
 			return false
 		}
 		foundHash = true
-		return DependsOn(call.Call.Args[0], func(w ssa.Value) bool { return roots[w] })
+		for r := range c11BufferRoots(call.Call.Args[0]) {
+			if roots[r] {
+				return true
+			}
+		}
+		return false
 	})
 	if same {
 		return true, ""
@@ -1032,6 +1028,56 @@ func c11RefOfSameBuffer(ref, content ssa.Value) (bool, string) {
 		return false, "no blob.RefFromBytes/RefFromString/RefFromHash in its derivation"
 	}
 	return false, "it hashes a different buffer"
+}
+
+// c11BufferRoots returns the buffer objects a reader/bytes value is a view of:
+// identity conversions and the standard view constructors (bytes.NewReader,
+// (*bytes.Buffer).Bytes ...) are looked through; any other call result,
+// allocation or parameter is a root.
+func c11BufferRoots(v ssa.Value) map[ssa.Value]bool {
+	roots := map[ssa.Value]bool{}
+	seen := map[ssa.Value]bool{}
+	var walk func(v ssa.Value, depth int)
+	walk = func(v ssa.Value, depth int) {
+		v = originValue(v)
+		if v == nil || seen[v] || depth > 40 {
+			return
+		}
+		seen[v] = true
+		switch x := v.(type) {
+		case *ssa.Const:
+			return
+		case *ssa.Slice:
+			walk(x.X, depth+1)
+			return
+		case *ssa.Convert:
+			walk(x.X, depth+1)
+			return
+		case *ssa.TypeAssert:
+			walk(x.X, depth+1)
+			return
+		case *ssa.Phi:
+			for _, e := range x.Edges {
+				walk(e, depth+1)
+			}
+			return
+		case *ssa.Call:
+			cs := CallSite{x.Parent(), x}
+			for _, w := range [][3]string{
+				{"bytes", "", "NewReader"}, {"bytes", "", "NewBuffer"}, {"bytes", "", "NewBufferString"},
+				{"strings", "", "NewReader"}, {"io", "", "NopCloser"}, {"bufio", "", "NewReader"},
+				{"bytes", "Buffer", "Bytes"}, {"bytes", "Buffer", "String"}, {"io", "", "LimitReader"},
+			} {
+				if cs.IsStatic(w[0], w[1], w[2]) {
+					walk(x.Call.Args[0], depth+1)
+					return
+				}
+			}
+		}
+		roots[v] = true
+	}
+	walk(v, 0)
+	return roots
 }
 
 // ---------------------------------------------------------------------------
@@ -1254,38 +1300,37 @@ func c11RuleFetch(p *Program, r *Reporter, g *c11Flow) {
 			default:
 				// the hash was fed from the reader the store returned, before the comparison
 				h := H.Args()[1]
+				cipherArg := decInFetch.Call.Args[decCipherIdx]
 				var copyCall *CallSite
+				fed := false
 				for _, c := range CallsIn(fetchFn, false) {
 					c := c
-					if c.Callee() != nil && g.inPkg[c.Callee()] || c.Instr == H.Instr || c.Instr == F.c.Instr {
+					if c.Callee() != nil && g.inPkg[c.Callee()] || c.Instr == H.Instr || c.Instr == F.c.Instr || !Precedes(c.Instr, H.Instr) {
 						continue
 					}
-					readsStore, feedsHash := false, false
+					readsStore, feedsHash, fillsBuf := false, false, false
 					for _, a := range c.Args() {
 						if g.flows(fReader, a, c11FwdKinds) {
 							readsStore = true
 						}
-						if g.flows(h, a, c11FwdKinds) && !g.flows(fReader, a, c11FwdKinds) {
+						if g.flows(h, a, c11FwdKinds) {
 							feedsHash = true
 						}
+						if g.flows(cipherArg, a, c11FwdKinds) {
+							fillsBuf = true
+						}
 					}
-					if readsStore && feedsHash && Precedes(c.Instr, H.Instr) {
+					if readsStore && feedsHash && (copyCall == nil || fillsBuf) {
 						copyCall = &c
+						fed = fillsBuf
 					}
 				}
 				if copyCall == nil {
-					r.Violation(rule, fk+"#success-return#hash-checked", site, "HashMatches guards the success return, but no call before it copies the reader returned by the wrapped store into that hash: the digest compared is not that of the bytes read")
+					r.Violation(rule, fk+"#success-return#hash-checked", site, "HashMatches guards the success return, but no call before it combines the reader returned by the wrapped store with that hash: the digest compared is not that of the bytes read")
 					break
 				}
 				r.OK(rule, fk+"#success-return#hash-checked", site, "dominated by HashMatches()==true on the fetched ref, with the hash fed from the wrapped store's reader by "+copyCall.CalleeKey()+" before the comparison")
 				// (b) decrypt of the same bytes
-				cipherArg := decInFetch.Call.Args[decCipherIdx]
-				fed := false
-				for _, a := range copyCall.Args() {
-					if g.flows(cipherArg, a, c11FwdKinds) && !g.flows(fReader, a, c11FwdKinds) {
-						fed = true
-					}
-				}
 				r.Check(fed, rule, fk+"#success-return#decrypts-read-bytes", site,
 					"the buffer handed to the decrypt helper is filled by the same copy that feeds the hash",
 					"the ciphertext buffer handed to the decrypt helper is not filled by the copy that feeds the checked hash: the bytes decrypted are not the bytes whose digest was compared")
@@ -1310,10 +1355,11 @@ func c11RuleFetch(p *Program, r *Reporter, g *c11Flow) {
 				if metaCall != nil {
 					takesParam := false
 					for _, a := range metaCall.Call.Args {
-						for _, prm := range fetchFn.Params[1:] {
-							if sameOrigin(a, prm) && !c11IsContext(prm.Type()) {
-								takesParam = true
-							}
+						if DependsOn(a, func(v ssa.Value) bool {
+							prm, ok := v.(*ssa.Parameter)
+							return ok && prm.Parent() == fetchFn && prm != fetchFn.Params[0] && !c11IsContext(prm.Type())
+						}) {
+							takesParam = true
 						}
 					}
 					if sz, isEx := originValue(res[1]).(*ssa.Extract); isEx && sz.Tuple == ssa.Value(metaCall) && takesParam {
